@@ -3,14 +3,14 @@ package main
 func init() {
 	register(propSpec{
 		ID: "C05", Pkg: "props/c05", NeedCLI: true,
-		Rule: "cases: (1) exhaustively every codon over the 40 characters the nucleotide alphabet admits (A,C,G,T,U and the 11 IUPAC codes in both cases, '-', X, x, ?, '.', '*', O, o) x 3 genetic codes, translated in frames 0, 1 and 2, plus GenAllPossibleCodons of each; (2) sequences, sequence sets (rows of different lengths, frames 0,1,2 and the three frames at once) and alignments of 1-5 rows, length 0-40, drawn from five character tiers (ACGT; ACGTU both cases; IUPAC both cases with gaps; every admitted character; codon structured with third/first position ambiguity, whole-gap and partial-gap codons); (3) CodonAlign of 1-5 ungapped nucleotide rows of length 3k+r (k 1-10, r 0-2) onto the model's own translations with every row's residues placed at drawn columns of a wider protein alignment, rows permuted, optionally one more nucleotide sequence; (4) TranslateByReference on gap-free alignments in frames 0,1,2 and on gapped alignments (gap runs or random gaps) in frame 0 with a drawn reference row; (5) goalign translate (--phase -1..2, --genetic-code, --unaligned, --ref-seq) and codonalign | translate. " +
-			"Oracle: NCBI tables 1, 2, 5 in the compact AAs/Base1/Base2/Base3 form and IUPAC codes as sets: a codon gives the amino acid common to all expansions else X, '---' gives '-', anything else X, after case folding and U->T; floor((L-frame)/3) residues, an error exactly when that is 0 for some sequence; three frames give rows name_0,name_1,name_2 per input; codon alignment of length 3 x protein length whose rows without gaps are the nucleotides minus the r trailing bases and whose translation is the protein alignment; reference guided = plain translation on gap-free alignments, and in frame 0 a rectangular result with the same names in the same order whose reference row without gaps is a prefix of the translation of the ungapped reference. " +
+		Rule: "cases: (1) exhaustively every codon over the 40 characters the nucleotide alphabet admits (A,C,G,T,U and the 11 IUPAC codes in both cases, '-', X, x, ?, '.', '*', O, o) x 3 genetic codes, translated in frames 0, 1 and 2, plus GenAllPossibleCodons of each; (2) sequences, sequence sets (rows of different lengths) and alignments of 1-5 rows, each in frames 0,1,2 and the three frames at once, length 0-40, drawn from five character tiers (ACGT; ACGTU both cases; IUPAC both cases with gaps; every admitted character; codon structured with third/first position ambiguity, whole-gap and partial-gap codons); (3) CodonAlign of 1-5 ungapped nucleotide rows of length 3k+r (k 1-10, r 0-2) onto the model's own translations with every row's residues placed at drawn columns of a wider protein alignment, rows permuted, optionally one more nucleotide sequence; (4) TranslateByReference on gap-free alignments in frames 0,1,2 and on gapped alignments (gap runs or random gaps) in frame 0 with a drawn reference row; (5) goalign translate (--phase -1..2, --genetic-code, --unaligned, --ref-seq) and codonalign | translate. " +
+			"Oracle: NCBI tables 1, 2, 5 in the compact AAs/Base1/Base2/Base3 form and IUPAC codes as sets: a codon gives the amino acid common to all expansions else X, '---' gives '-', anything else X, after case folding and U->T; floor((L-frame)/3) residues, an error exactly when that is 0 for some sequence; three frames give rows name_0,name_1,name_2 per input (sets and alignments); Length() of a translated alignment = floor((L-frame)/3), and = floor(L/3) after the three frames when L = 2 mod 3; codon alignment of length 3 x protein length whose rows without gaps are the nucleotides minus the r trailing bases and whose translation is the protein alignment; reference guided = plain translation on gap-free alignments, and in frame 0 a rectangular result with the same names in the same order whose reference row without gaps is a prefix of the translation of the ungapped reference. " +
 			"Non-trivial: a codon holds an ambiguity code, U, a lower-case letter or a gap, or a length is not a multiple of 3 (translation); the protein alignment has a gap (CodonAlign); >=2 rows and one of the former (reference guided, gap-free) or the reference row has an internal gap and a non-empty translation (gapped). distinct = distinct JSON form of the case (codon+code in the enumeration)",
 		Assumptions: []string{
 			"the NCBI tables 1, 2 and 5 and the IUPAC sets written in the harness are the authority (checked by hand against the NCBI page, not derived from align/const.go)",
 			"GenAllPossibleCodons on a codon holding a gap: its comment says 'empty slice', the implementation returns the codon; the statement only needs '---' -> '-', so both are accepted (counted as ambiguous)",
 			"reference guided translation of an alignment too short to hold one codon in the frame (plain translation is an error there) is not judged (counted as ambiguous)",
-			"three-frame translation is checked on sequence sets only (on an alignment it yields rows of three lengths, which upstream's own test.sh expects)",
+			"three-frame translation of an alignment: rows name_0,name_1,name_2 are checked as for sequence sets; Length() is asserted (= floor(L/3)) only when L = 2 mod 3, where the three row lengths coincide; otherwise the rows legitimately differ in length (upstream's own test.sh expects that output) and Length() is not judged (counted as ambiguous)",
 			"outside the 64 000 x 3 enumerated codons, absence of violations is established on the explored cases only",
 		},
 		LevelText: "Complete enumeration of the finite core - all 64 000 codons over the admitted characters x 3 genetic codes x 3 frames compared with the NCBI tables - plus generated-input search (~120 000 quick, ~3 million thorough) for the frame arithmetic, the containers, the CodonAlign round trip, reference guided translation and the command line. The codon table part is exhaustive; the rest shows absence of violations on what was explored.",
